@@ -115,7 +115,7 @@ def prep_optgen(ctx, cfg, tier, seed):
 
 OPT_MODES = {'quick': ['checkptr'], 'thorough': ['checkptr', 'asan']}
 OPT_ASSUME = ['the Go compiler (through ordinary selectors, unsafe.Sizeof and address arithmetic on &s.path) is the layout oracle; the generator models only the flattened listing, first-match resolution and must-fail requests',
-              'struct shapes are those of the generator grammar in lib/optgen.py; func-typed fields and NaN values are not generated',
+              'struct shapes are those of the generator grammar in lib/optgen.py; func-typed fields are not generated (NaN, infinities and negative zero are among the values)',
               'checkptr (and ASan in the thorough tier) are secondary oracles; intra-object wrong offsets are caught by the byte-level neighbour monitor only']
 for _p in ('C01', 'C02', 'C03', 'C04'):
     prop(_p, harness='optgen', subpkg=_p.lower(), modes=OPT_MODES, env={'GODEBUG': 'gccheckmark=1,clobberfree=1'}, batches={'quick': 4, 'thorough': 8}, floor=100, prepare=prep_optgen, assumptions=OPT_ASSUME, wd={'quick': 900, 'thorough': 7200})
